@@ -13,4 +13,5 @@ let table : (string * (Model.sx -> Model.sx)) list = [
   "wire", Model.check_wire;
   "signbytes", Model.check_signbytes;
   "rlp", Model.check_rlp;
+  "consensus", Model.check_consensus;
 ]
